@@ -23,10 +23,23 @@ into an `Unknown` step, which Coq refuses.  Exact integer stream: schemes that
 only contract (dense environments, contract_compressed without compression)
 are compared with the model's `dense` inside Coq.
 
+Every contract_boundary_from call additionally logs a `Boundary` step: the total
+size (product over ALL shared indices, fused or not) of the bond between every
+pair of tensors of the new boundary layer, compressed or not - Coq refuses any
+above the cap (a forgotten compressor, e.g. on the bond closing a periodic
+direction, is caught here).  Each Compress records which truncation code really
+ran (svd / virtual-tree / full-bond / local-fit / qr-only).
+
 Oracle (tests, tolerance 1e-8 relative): whenever the logged plan is
-untruncating the scheme value equals exact contraction; every environment
-(row / column / plaquette) combined with the excluded part gives the value of
-the whole; max_bond() of returned boundaries.
+untruncating the scheme value equals exact contraction - every scheme is run
+with real and complex data, open and periodic lattices, and three caps:
+generous (or None), "mid" (the smallest cap covering every rank bound of the
+generous run, used when it is below the raw bond so that the truncation code
+runs although nothing may be lost) and tight; every environment (row / column /
+plaquette) combined with the excluded part gives the value of the whole; one
+shared environment store (2D x/plaquette envs, 3D cell envs) handed to several
+consumers in sequence keeps every stored environment consistent and every
+consumer exact.
 """
 
 import contextlib
@@ -105,6 +118,8 @@ class Trace:
         self.stepfail = None
         self.nenv = 0
         self.detached = None
+        self.paths = {}  # which truncation code paths really ran (counted at any nesting depth)
+        self.bstage = None  # (introduced, consumed) since the entry of the current contract_boundary_from
         if root is not None:
             self.adopt(root)
 
@@ -165,6 +180,9 @@ class Trace:
         elif k == "Project":
             self.introduced |= {op[3], op[4]}
             self.touched |= set(op[1]) | set(op[2]) | {op[3], op[4]}
+        if self.bstage is not None and k == "Contract":
+            self.bstage[0].add(op[2])
+            self.bstage[1].update(set(op[1]) - {op[2]})
         if self.stepref is not None and self.stepfail is None and net is not None and net is self.root:
             self._stepcheck()
 
@@ -213,6 +231,18 @@ class Trace:
         self.introduced = set()
         self.touched = set()
 
+    def boundary(self, why=""):
+        """a boundary-contraction step returns: the total size of the bond between every pair of tensors produced
+        by the contractions of this step (the new boundary layer) - compressed or not"""
+        if self.root is None or self.bstage is None or self.detached is not None or self.cap is None:
+            return
+        layer = self.bstage[0] - self.bstage[1]
+        bm = self.bondmap(self.root)
+        table = sorted((a, b, s) for (a, b), s in bm.items() if a in layer and b in layer)
+        if table:
+            self.ops.append(("Boundary", self.cap, table))
+            self.prims.append("boundary:" + why)
+
     def env(self, key, tn_env):
         self.nenv += 1
         self.ops.append(("Env", self.nenv, sorted(self.P(t) for t in tn_env.tensor_map.values())))
@@ -260,13 +290,15 @@ def _patches():
     TN = tc.TensorNetwork
     out = []
 
-    def primitive(owner, name, before, after, relevant=None):
+    def primitive(owner, name, before, after, relevant=None, count=None):
         """outermost-only logging wrapper: nested primitives are part of the outer one"""
         orig = owner.__dict__[name] if isinstance(owner, type) else getattr(owner, name)
         assert not isinstance(orig, functools.partialmethod)
 
         def wrapper(*args, **kwargs):
             tr = _T
+            if tr is not None and count:
+                tr.paths[count] = tr.paths.get(count, 0) + 1
             if tr is None or tr.depth:
                 return orig(*args, **kwargs)
             a = _bound(orig, args, kwargs)
@@ -293,13 +325,20 @@ def _patches():
         return dict(net.tensor_map)
 
     # ---- TensorNetwork._compress_between_tids ---------------------------------
+    def path_of(tr, p0):
+        ran = [k for k, v in tr.paths.items() if v > p0.get(k, 0)]
+        for k in ("virtual-tree", "full-bond", "local-fit", "svd"):
+            if k in ran:
+                return k
+        return "qr-only"
+
     def cb_before(tr, a):
         net = a["self"]
         t1, t2 = net.tensor_map[a["tid1"]], net.tensor_map[a["tid2"]]
-        return t1, t2, pair_sizes(t1, t2)
+        return t1, t2, pair_sizes(t1, t2), dict(tr.paths)
 
     def cb_after(tr, a, st, res):
-        t1, t2, sz = st
+        t1, t2, sz, p0 = st
         if sz is None:
             return
         b, l, r = sz
@@ -309,9 +348,25 @@ def _patches():
         # only certain to lose nothing when max_bond covers the whole bond
         rk = min(b, l, r) if a.get("mode") in ("basic", "virtual-tree") else b
         tr.emit(("Compress", tr.P(t1), tr.P(t2), a["max_bond"], a["cutoff"] == 0.0, rk, b, now[0] if now else 1),
-                f"_compress_between_tids(mode={a.get('mode')})", a["self"])
+                f"_compress_between_tids(mode={a.get('mode')},path={path_of(tr, p0)})", a["self"])
 
     primitive(TN, "_compress_between_tids", cb_before, cb_after)
+
+    def counter(owner, name, label):
+        orig = owner.__dict__[name]
+
+        def wrapper(*args, **kwargs):
+            tr = _T
+            if tr is not None:
+                tr.paths[label] = tr.paths.get(label, 0) + 1
+            return orig(*args, **kwargs)
+
+        wrapper.__wrapped__ = orig
+        out.append((owner, name, orig, wrapper))
+
+    counter(TN, "_compress_between_virtual_tree_tids", "virtual-tree")
+    counter(TN, "_compress_between_full_bond_tids", "full-bond")
+    counter(TN, "_compress_between_local_fit", "local-fit")
 
     # ---- TensorNetwork._canonize_between_tids --------------------------------------
     def cz_before(tr, a):
@@ -425,7 +480,7 @@ def _patches():
         tr.emit(("Compress", tr.P(a["T1"]), tr.P(a["T2"]), co.get("max_bond"), co.get("cutoff", 1e-10) == 0.0,
                  min(st), st[0], now[0] if now else 1), "tensor_compress_bond")
 
-    primitive(tc, "tensor_compress_bond", lambda tr, a: pair_sizes(a["T1"], a["T2"]), tcb_after, relevant=t_rel)
+    primitive(tc, "tensor_compress_bond", lambda tr, a: pair_sizes(a["T1"], a["T2"]), tcb_after, relevant=t_rel, count="svd")
     primitive(tc, "tensor_canonize_bond", lambda tr, a: pair_sizes(a["T1"], a["T2"]),
               lambda tr, a, st, res: tr.emit(("Canonize", tr.P(a["T1"]), tr.P(a["T2"])), "tensor_canonize_bond")
               if st is not None else None, relevant=t_rel)
@@ -486,7 +541,36 @@ def _patches():
             net = a[tn_arg]
             groups = {st: sorted(net.tag_map.get(st, ())) for st in a["site_tags"]}
             sz, rk = region_sizes(net, groups)
-            return {s: [tr.P(net.tensor_map[t]) for t in g] for s, g in groups.items()}, sz, rk
+            chain, cross_ = {}, {}
+            if fname == "tensor_network_1d_compress":
+                # the result is an OPEN chain in the order of site_tags: the bond between consecutive sites has to carry
+                # everything that crosses that cut (long range bonds, e.g. the one closing a periodic direction, are
+                # re-routed through the chain).  Compressors that bring the whole chain to canonical form before
+                # truncating (for the tree-gauge ones: gauge distance 3 spans a chain of <= 5 sites) lose nothing as
+                # soon as max_bond covers the Schmidt rank of the cut, min(crossing, open legs left, open legs right)
+                order = list(a["site_tags"])
+                pos = {}
+                for k, st_ in enumerate(order):
+                    for t in groups[st_]:
+                        pos[t] = k
+                glob = (a.get("method") in GLOBALLY_EXACT_1D and a.get("canonize", True) is not False and len(order) <= 5)
+                if len(pos) == net.num_tensors:
+                    for k in range(len(order) - 1):
+                        cross = left = right = 1
+                        for ix, tids in net.ind_map.items():
+                            ps = [pos[t] for t in tids]
+                            d = int(net.ind_size(ix))
+                            if min(ps) <= k < max(ps):
+                                cross *= d
+                            elif len(tids) == 1:
+                                if ps[0] <= k:
+                                    left *= d
+                                else:
+                                    right *= d
+                        kk = tuple(sorted((order[k], order[k + 1]), key=str))
+                        cross_[kk] = cross
+                        chain[kk] = min(cross, left, right) if glob else cross
+            return {s: [tr.P(net.tensor_map[t]) for t in g] for s, g in groups.items()}, sz, rk, chain, dict(tr.paths), cross_
 
         def after(tr, a, st, res):
             net = a[tn_arg]
@@ -494,7 +578,8 @@ def _patches():
             covered = set(t for g in groups1.values() for t in g)
             tr.detached["macro"] = {
                 "name": f"{fname}(method={a.get('method')})", "site_tags": list(a["site_tags"]),
-                "groups0": st[0], "sz0": st[1], "rk0": st[2],
+                "groups0": st[0], "sz0": st[1], "rk0": st[2], "chain": st[3], "cross": st[5],
+                "paths": sorted(k for k, v in tr.paths.items() if v > st[4].get(k, 0)),
                 "objs1": {s: [net.tensor_map[t] for t in g] for s, g in groups1.items()},
                 "sz1": region_sizes(net, groups1)[0], "complete": covered == set(net.tensor_map),
                 "chi": a.get("max_bond"), "cut0": a.get("cutoff", 1e-10) == 0.0,
@@ -532,8 +617,12 @@ def _patches():
             if aft is None:
                 continue  # long range bond re-routed through other sites
             # one-sided sweeps (zip-up ...) truncate on partial information: only max_bond >= the bond size itself
-            # certifies that nothing can be lost
-            tr.emit(("Compress", new[key[0]], new[key[1]], m["chi"], m["cut0"], b, b, aft), m["name"], root)
+            # certifies that nothing can be lost; the globally canonical compressors get the Schmidt bound of the cut
+            kk = tuple(sorted(key, key=str))
+            b = m["cross"].get(kk, b)
+            rk = m["chain"].get(kk, b)
+            tr.emit(("Compress", new[key[0]], new[key[1]], m["chi"], m["cut0"], rk, b, aft),
+                    m["name"] + f",paths={'+'.join(m['paths']) or 'none'}", root)
 
     primitive(TN, "add_tensor_network", lambda tr, a: None, readd_after, relevant=readd_rel)
 
@@ -546,8 +635,18 @@ def _patches():
             mine = tr is not None and tr.depth == 0 and (tr.root is None or tr.root is self)
             if mine and tr.root is None:
                 tr.adopt(self)
-            res = orig(self, *args, **kwargs)
+            stage = mine and why == "contract_boundary_from" and tr.bstage is None
+            if stage:
+                tr.bstage = (set(), set())
+            try:
+                res = orig(self, *args, **kwargs)
+            finally:
+                if stage and not (tr.root is self):
+                    tr.bstage = None
             if mine and tr.root is self:
+                if stage:
+                    tr.boundary(why)
+                    tr.bstage = None
                 tr.handover(why)
             return res
 
@@ -647,6 +746,9 @@ def plan_literal(ops):
         elif k == "HandOver":
             bonds = "[" + "; ".join(f"({T(a)}, {T(b)}, {N(s)})" for a, b, s in op[2]) + "]"
             out.append(f"HandOver {O(op[1])} {bonds}")
+        elif k == "Boundary":
+            bonds = "[" + "; ".join(f"({T(a)}, {T(b)}, {N(s)})" for a, b, s in op[2]) + "]"
+            out.append(f"Boundary {O(op[1])} {bonds}")
         elif k == "Env":
             out.append(f"Env {N(op[1])} {L(op[2])}")
         else:
@@ -725,6 +827,13 @@ def py_first_bad(ops):
             if any(a in dead or b in dead for a, b, _ in op[2]):
                 return k, "dead tensor at hand-over"
             pend = []
+        elif kind == "Boundary":
+            for a, b, sz in op[2]:
+                if a in dead or b in dead:
+                    return k, "dead tensor in the returned boundary"
+                if not ok_cap(sz, op[1]):
+                    return k, (f"the returned boundary layer has a bond of total size {sz} > cap {op[1]} between tensors "
+                               f"({a},{b}) (product over all shared indices)")
         elif kind == "Env":
             if any(t in dead for t in op[2]):
                 return k, "environment of dead tensors"
@@ -779,13 +888,14 @@ def make_network(d):
         tn = qtn.TN2D_from_fill_fn(lambda shape: rng.integers(-1, 3, size=shape).astype(float), d["Lx"], d["Ly"], D=d["D"],
                                    cyclic=d.get("cyclic", False))
     elif kind == "3d":
-        tn = qtn.TN3D_rand(d["Lx"], d["Ly"], d["Lz"], D=d["D"], seed=d["seed"])
+        tn = qtn.TN3D_rand(d["Lx"], d["Ly"], d["Lz"], D=d["D"], seed=d["seed"], dtype=d.get("dtype", "float64"),
+                           cyclic=d.get("cyclic", False))
     elif kind == "3dnorm":
         p = qtn.PEPS3D.rand(d["Lx"], d["Ly"], d["Lz"], bond_dim=d["D"], phys_dim=2, seed=d["seed"])
         tn = p.make_norm()
     elif kind in ("graph", "graphint"):
         edges = [tuple(e) for e in d["edges"]]
-        tn = qtn.TN_from_edges_rand(edges, D=d["D"], seed=d["seed"])
+        tn = qtn.TN_from_edges_rand(edges, D=d["D"], seed=d["seed"], dtype=d.get("dtype", "float64"))
         if kind == "graphint":
             rng = np.random.default_rng(d["seed"])
             for t in tn.tensors:
@@ -834,6 +944,9 @@ def rand_path(rng, n):
 
 # ------------------------------------------------------------------------------
 # running one scheme under the tracer
+
+# 1D compressors that truncate in a canonical form of the WHOLE chain (exact as soon as max_bond >= Schmidt rank)
+GLOBALLY_EXACT_1D = ("dm", "direct", "sdc", "local-late")
 
 MODES_2D = ["mps", "full-bond", "projector2d", "dm", "zipup", "direct", "fit", "src", "sdc", "zipup-first", "projector",
             "local-early", "local-late", "superorthogonal", "l2bp"]
@@ -913,7 +1026,16 @@ def check_plan(ctx, col, d, tr, regime, val, ref):
     unt = py_untruncating(ops, tr.cap)
     key = (d["scheme"], d.get("net"), d.get("Lx"), d.get("Ly"), d.get("Lz"), d.get("D"), d.get("seed"),
            str(sorted(d.get("opts", {}).items())), regime, tr.cap)
-    ctx.count(key, (changed > 0) if regime == "cap" else (n > 0))
+    ctx.count(key, (changed > 0) if regime in ("cap", "mid") else (n > 0))
+    if unt:
+        # exactness is claimed for this run: which truncation code really ran under the claim
+        for path, cnt in tr.paths.items():
+            ctx.bump(f"exact_claim_ran_path:{path}", cnt)
+        if changed:
+            ctx.bump("exact_claim_with_a_bond_really_reduced")
+    for pth in tr.prims:
+        if "path=" in pth:
+            ctx.bump("compress_path:" + pth.split("path=")[1].rstrip(")"))
     ctx.bump(f"plan:{d['scheme']}:{regime}")
     ctx.bump("plan_untruncating" if unt else "plan_truncating")
     ctx.bump("ops", len(ops))
@@ -1014,19 +1136,28 @@ def gen_boundary_2d(ctx):
                     Lx, Ly = Ly, Lx  # at least one boundary step from the pinned side
                 d = {"scheme": "boundary", "net": "2dnorm" if layered else "2d", "Lx": Lx, "Ly": Ly,
                      "D": 2 if (layered or Lx * Ly > 9 or rng.random() < 0.7) else 3, "seed": rng.randrange(10 ** 6)}
-                if not layered and rng.random() < 0.2:
-                    d["cyclic"] = rng.choice([(True, False), (False, True)])
-                if not layered and rng.random() < 0.2:
+                if rng.random() < 0.4:
                     d["dtype"] = "complex128"
                 o = {"mode": mode}
                 # the first repetition pins the side, later ones draw any sequence
                 seq = [side] if rep == 0 else rng.choice(seqs)
-                if d.get("cyclic"):
-                    # contract along the cyclic direction only from its open sides
-                    seq = [s for s in (seq if isinstance(seq, list) else sides) if (s[0] == "x") == bool(d["cyclic"][1])] or None
-                    if seq is None:
-                        d.pop("cyclic")
-                        seq = [side]
+                if not layered and rng.random() < 0.35:
+                    # periodic in one direction.  Modes that close the periodic bond themselves (projector, 1D /
+                    # arbitrary-geometry compressors) mostly get the boundary running ALONG the periodic direction
+                    # (contracted from the sides of the other axis); mps / full-bond never compress that bond and are
+                    # contracted along the periodic direction from its first line (the documented default sequence)
+                    along_ok = mode not in ("mps", "full-bond")
+                    pin = side[0] if rep == 0 else rng.choice("xy")
+                    if along_ok and rng.random() < 0.75:
+                        per = "y" if pin == "x" else "x"
+                        seq = [side] if rep == 0 else rng.choice([[pin + "min"], [pin + "max"], [pin + "min", pin + "max"]])
+                    else:
+                        per = pin
+                        seq = [per + "min"]
+                    if (Lx if per == "x" else Ly) >= 3 and (Lx if seq[0][0] == "x" else Ly) >= 3:
+                        d["cyclic"] = (per == "x", per == "y")
+                    else:
+                        seq = [side] if rep == 0 else seq
                 o["sequence"] = seq
                 if mode == "mps":
                     # (the documented defaults are always met through the per-side sweeps below)
@@ -1045,6 +1176,38 @@ def gen_boundary_2d(ctx):
                     o["final_contract"] = False
                 d["opts"] = o
                 out.append(d)
+    # wide boundaries (5 sites): the raw bond outgrows the Schmidt rank of the cut, so that with the cap of the "mid"
+    # regime (>= every rank bound, < raw bond) the truncation code really runs while nothing may be lost
+    wide_modes = ["local-late", "local-late", "dm", "direct", "mps", "sdc", "full-bond", "local-early", "projector2d"]
+    for k in range(ctx.n(5, 27)):
+        mode = wide_modes[k % len(wide_modes)]
+        Lx, Ly = rng.choice([(4, 5), (5, 5)])
+        side = rng.choice(["xmin", "xmax"])
+        if rng.random() < 0.5:
+            Lx, Ly, side = Ly, Lx, "y" + side[1:]
+        d = {"scheme": "boundary", "net": "2d", "Lx": Lx, "Ly": Ly, "D": 2, "seed": rng.randrange(10 ** 6),
+             "dtype": "complex128" if k % 3 != 2 else "float64", "opts": {"mode": mode, "sequence": [side]}, "wide": True}
+        out.append(d)
+    # lattices periodic ALONG the boundary (contracted from the sides of the other axis, ranges starting at 0): the
+    # bond that closes the periodic direction is part of the boundary layer and must be capped like every other one
+    closing = ["projector2d", "dm", "projector", "local-early", "local-late", "zipup", "direct", "superorthogonal", "l2bp",
+               "fit", "src", "sdc", "zipup-first"]
+    pick = ["projector2d", "projector2d"] + ([closing[(ctx.seed + k) % len(closing)] for k in (1, 5)] if ctx.quick
+                                             else closing + closing)
+    for k, mode in enumerate(pick):
+        per = "y" if k % 2 == 0 else "x"
+        L = rng.choice([3, 4])
+        W = rng.choice([3, 4])
+        Lx, Ly = (L, W) if per == "y" else (W, L)
+        side = ("x" if per == "y" else "y") + rng.choice(["min", "max"])
+        d = {"scheme": "boundary", "net": "2d", "Lx": Lx, "Ly": Ly, "D": rng.choice([2, 2, 3]) if Lx * Ly <= 9 else 2,
+             "seed": rng.randrange(10 ** 6), "cyclic": (per == "x", per == "y"),
+             "opts": {"mode": mode, "sequence": [side] if rng.random() < 0.7 else [side[0] + "min", side[0] + "max"]}}
+        if rng.random() < 0.4:
+            d["dtype"] = "complex128"
+        if rng.random() < 0.3:
+            d["opts"]["final_contract"] = False
+        out.append(d)
     # explicit multi-row sweeps through the per-side entry points
     for side in sides:
         for mode in ["mps", "dm", "projector2d", "full-bond"][: ctx.n(2, 4)]:
@@ -1071,6 +1234,8 @@ def gen_boundary_3d(ctx):
             layered = rng.random() < 0.15 and mode in ("peps", "projector3d", "local-early") and (Lx, Ly, Lz) == (2, 2, 2)
             d = {"scheme": "boundary3d", "net": "3dnorm" if layered else "3d", "Lx": Lx, "Ly": Ly, "Lz": Lz, "D": 2,
                  "seed": rng.randrange(10 ** 6)}
+            if not layered and rng.random() < 0.4:
+                d["dtype"] = "complex128"
             o = {"mode": mode}
             r = rng.random()
             long_axis = "xyz"[[Lx, Ly, Lz].index(max(Lx, Ly, Lz))]
@@ -1099,6 +1264,8 @@ def gen_compressed(ctx):
         n = rng.randint(4, 8)
         d = {"scheme": "compressed", "net": "graph", "edges": rand_graph(rng, n), "D": rng.choice([2, 2, 3]),
              "seed": rng.randrange(10 ** 6)}
+        if rng.random() < 0.45:
+            d["dtype"] = "complex128"
         ntensors = len({v for e in d["edges"] for v in e})
         r = rng.random()
         if r < 0.25:
@@ -1154,11 +1321,13 @@ def gen_rg(ctx):
         if net == "2d":
             Lx, Ly = rng.choice([(2, 3), (3, 3), (2, 4), (4, 4), (4, 3), (3, 4)])
             d = {"scheme": sch, "net": "2d", "Lx": Lx, "Ly": Ly, "D": 2, "seed": rng.randrange(10 ** 6)}
-            if rng.random() < 0.2 and sch == "ctmrg":
+            if rng.random() < 0.3:
                 d["cyclic"] = rng.choice([(True, False), (False, True)])
         else:
             Lx, Ly, Lz = rng.choice([(2, 2, 2), (2, 2, 3), (2, 3, 2)])
             d = {"scheme": sch, "net": "3d", "Lx": Lx, "Ly": Ly, "Lz": Lz, "D": 2, "seed": rng.randrange(10 ** 6)}
+        if rng.random() < 0.4:
+            d["dtype"] = "complex128"
         o = {}
         if sch == "hotrg":
             if rng.random() < 0.3:
@@ -1199,7 +1368,13 @@ def stage_plans(ctx):
             ref = exact_value(make_network(d))
         except Exception:
             ref = None
-        for max_bond, cutoff in pick_bonds(rng):
+        regimes = pick_bonds(rng)
+        if d.get("wide"):
+            regimes = [(64, 0.0)]  # + the mid regime below
+        ri, mid_idx = 0, None
+        while ri < len(regimes):
+            max_bond, cutoff = regimes[ri]
+            ri += 1
             if max_bond is None and not (
                 d["scheme"] in ("compressed", "around")
                 or (d["scheme"].startswith("boundary") and d["net"].startswith("2d") and mode_of(d) in ("mps", "dm", "zipup", "direct")
@@ -1208,7 +1383,7 @@ def stage_plans(ctx):
                 max_bond = 64  # an unbounded cap is outside the other modes' domain (they size arrays / compare with it)
             if max_bond is None and d["scheme"] in ("compressed", "around"):
                 cutoff = 0.0 if rng.random() < 0.5 else 1e-10
-            regime = "exact" if (max_bond is None or max_bond >= 64) else "cap"
+            regime = "mid" if ri - 1 == mid_idx else "exact" if (max_bond is None or max_bond >= 64) else "cap"
             try:
                 tr, val, res, tn0 = run_scheme(d, max_bond, cutoff)
             except Exception as e:
@@ -1219,7 +1394,14 @@ def stage_plans(ctx):
                               {"desc": d, "max_bond": max_bond, "cutoff": cutoff, "traceback": traceback.format_exc()[-1500:]})
                 continue
             unt = check_plan(ctx, col, d, tr, regime, val, ref)
-            # returned boundaries obey the cap as a whole when every bond of them was produced by the scheme
+            if ri == 1 and regime == "exact":
+                # "mid" regime: the smallest cap that still covers every rank bound of the generous run; when it is
+                # below the largest raw bond the truncation code runs although nothing may be lost
+                rks = [o[5] for o in tr.ops if o[0] == "Compress"] + [o[7] for o in tr.ops if o[0] == "Project"]
+                raws = [o[6] for o in tr.ops if o[0] == "Compress"] + [o[8] for o in tr.ops if o[0] == "Project"]
+                if rks and max(rks) < max(raws) and (d.get("wide") or rng.random() < ctx.n(0.5, 1.0)):
+                    regimes = regimes + [(max(rks), 0.0)]
+                    mid_idx = len(regimes) - 1
             if nsamp < 4 and ncompress(tr.ops)[1] > 0:
                 ctx.sample({"desc": d, "max_bond": max_bond, "cutoff": cutoff, "plan_head": [str(o)[:110] for o in tr.ops[:8]],
                             "nops": len(tr.ops), "untruncating": unt})
@@ -1483,6 +1665,161 @@ def stage_coq(ctx):
 
 
 # ------------------------------------------------------------------------------
+# stage 3a: repeated use of one shared environment store (oracle)
+
+
+def stage_shared_stores(ctx):
+    """One `envs` / `plaquette_envs` / `x_envs` store handed to several consumers in sequence (compute, fetch and
+    consume, fetch again): after EVERY consumer each stored environment must still combine with the part it excludes
+    to the value of the whole, and every consumer must return the exact value every time (generous cap, cutoff 0)."""
+    import quimb as qu
+    import quimb.tensor as qtn
+
+    rng = ctx.rng
+    opts = dict(max_bond=64, cutoff=0.0)
+
+    def val(net):
+        return complex(net.contract(all, optimize="auto-hq"))
+
+    def check_cells(envs, Z, key, desc, step):
+        """3D cell stores: every entry is (cell + its environments), so it contracts to the whole"""
+        for k, e in envs.items():
+            ctx.count(("store3d", str(desc), step, str(k)), True)
+            ctx.bump("store_entries_checked")
+            try:
+                bad = e.outer_inds() or not close(val(e), Z)
+            except Exception as ex:
+                bad = repr(ex)[:80]
+            if bad:
+                ctx.violation(key, f"stored cell environment {k} no longer contracts to the value of the whole after step "
+                              f"'{step}' (shared store handed to several consumers)", {"desc": desc, "step": step, "entry": str(k)})
+                return False
+        return True
+
+    # ---- 3D, flat network: compute / fetch + consume in place / fetch ---------------------------------------------
+    for rep in range(ctx.n(1, 4)):
+        d = {"net": "3d", "Lx": 2, "Ly": 3, "Lz": 3, "D": 2, "seed": rng.randrange(10 ** 6),
+             "dtype": rng.choice(["float64", "complex128"])}
+        tn = make_network(d)
+        Z = exact_value(tn)
+        key = (("x", rng.randrange(2), 1), ("y", 1, 1), ("z", rng.randrange(3), 1))
+        desc = {**d, "key": str(key)}
+        envs = {}
+        try:
+            c1 = tn._maybe_compute_cell_env(key=key, envs=envs, **opts)
+            ok = check_cells(envs, Z, "store:3d:cell_env", desc, "computed")
+            if not close(val(c1), Z):
+                ctx.violation("store:3d:cell_env:value", "freshly computed cell environment != whole", {"desc": desc})
+            for step in ("fetch+scale", "fetch+contract", "fetch+cut"):
+                c = tn._maybe_compute_cell_env(key=key, envs=envs, **opts)
+                if not close(val(c), Z):
+                    ctx.violation("store:3d:cell_env", f"cell environment fetched from the shared store at step '{step}' contracts to "
+                                  f"{val(c)} instead of {complex(Z)}", {"desc": desc, "step": step})
+                    break
+                # the caller consumes, in place, what it was handed
+                if step == "fetch+scale":
+                    for t in c:
+                        t.modify(apply=lambda x: 2 * x)
+                elif step == "fetch+contract":
+                    c.contract_(all)
+                else:
+                    t0 = next(iter(c.tensor_map.values()))
+                    t0.modify(data=0 * t0.data)
+                if ok and not check_cells(envs, Z, "store:3d:cell_env", desc, step):
+                    break
+        except Exception as e:
+            import traceback
+
+            ctx.violation("store:3d:cell_env:raised", f"shared 3D cell store sequence raised {e!r}"[:200],
+                          {"desc": desc, "traceback": traceback.format_exc()[-1000:]})
+
+    # ---- 3D, PEPS: reduced density matrices / local expectations re-using one store -------------------------------
+    for rep in range(ctx.n(1, 3)):
+        d = {"Lx": 2, "Ly": 2, "Lz": 2, "D": 2, "seed": rng.randrange(10 ** 6), "dtype": rng.choice(["float64", "complex128"])}
+        psi = qtn.PEPS3D.rand(2, 2, 2, bond_dim=2, seed=d["seed"], dtype=d["dtype"])
+        k = np.asarray(psi.to_dense())
+        k = k / np.linalg.norm(k)
+        sites = [(i, j, l) for i in range(2) for j in range(2) for l in range(2)]
+        Zn = exact_value(psi.make_norm())
+        envs = {}
+        site = rng.choice(sites)
+        for call in range(3):
+            s2 = site if call < 2 else rng.choice(sites)
+            ctx.count(("store3d:ptr", str(d), call), True)
+            ctx.bump("store_consumers")
+            try:
+                rho = np.asarray(psi.partial_trace(s2, max_bond=32, cutoff=0.0, envs=envs))
+                ref = np.asarray(qu.partial_trace(k, [2] * 8, [sites.index(s2)]))
+                err = float(np.abs(rho - ref).max())
+            except Exception as e:
+                err = repr(e)[:120]
+            if isinstance(err, str) or err > 1e-8:
+                ctx.violation("store:3d:partial_trace", f"PEPS3D.partial_trace({s2}, envs=shared store), call #{call}: {err} "
+                              "(single-site reduced density matrix vs dense)", {"desc": d, "site": s2, "call": call})
+                break
+            if not check_cells(envs, Zn, "store:3d:partial_trace", {**d, "site": s2}, f"after call {call}"):
+                break
+
+    # ---- 2D: plaquette environments and x/y environments handed to several consumers ----------------------------------
+    for rep in range(ctx.n(1, 4)):
+        d = {"Lx": 3, "Ly": 3, "D": 2, "seed": rng.randrange(10 ** 6), "dtype": rng.choice(["float64", "complex128"])}
+        psi = qtn.PEPS.rand(3, 3, bond_dim=2, seed=d["seed"], dtype=d["dtype"])
+        norm = psi.make_norm()
+        Zn = exact_value(norm)
+        k = np.asarray(psi.to_dense())
+        sites = [(i, j) for i in range(3) for j in range(3)]
+        mode = rng.choice(["mps", "full-bond", "dm"])
+        desc = {**d, "mode": mode}
+
+        def check_plaq(pe, step):
+            for ((i0, j0), (xb, yb)), e in pe.items():
+                ctx.bump("store_entries_checked")
+                tags = [norm.site_tag(i0 + a, j0 + b) for a in range(xb) for b in range(yb)]
+                w = qtn.TensorNetwork([e, norm.select_any(tags)])
+                if w.outer_inds() or not close(val(w), Zn):
+                    ctx.violation("store:2d:plaquette_envs", f"stored plaquette environment ({i0},{j0}) no longer combines with its "
+                                  f"plaquette to the norm after step '{step}'", {"desc": desc, "step": step})
+                    return False
+            return True
+
+        def check_x(xe, step):
+            for i in range(3):
+                ctx.bump("store_entries_checked")
+                w = qtn.TensorNetwork([xe["xmin", i], norm.select(norm.x_tag(i)), xe["xmax", i]])
+                if w.outer_inds() or not close(val(w), Zn):
+                    ctx.violation("store:2d:x_envs", f"stored row environments of row {i} no longer combine with the row to the norm "
+                                  f"after step '{step}'", {"desc": desc, "step": step})
+                    return False
+            return True
+
+        try:
+            xe = norm.compute_x_environments(mode=mode, **opts)
+            check_x(xe, "computed")
+            pe = norm.compute_plaquette_environments(x_bsz=1, y_bsz=1, first_contract="x", x_envs=xe, mode=mode, **opts)
+            check_x(xe, "plaquettes from x_envs") and check_plaq(pe, "computed")
+            pe2 = norm.compute_plaquette_environments(x_bsz=1, y_bsz=2, first_contract="x", x_envs=xe, mode=mode, **opts)
+            check_x(xe, "second plaquettes from x_envs") and check_plaq(pe2, "computed")
+            for call in range(3):
+                where = rng.choice(sites)
+                G = np.array([[1.0, 2.0], [2.0, -1.0]]) if call % 2 == 0 else np.array([[0.0, 1.0], [1.0, 0.0]])
+                ctx.count(("store2d", str(desc), call), True)
+                ctx.bump("store_consumers")
+                got = complex(psi.compute_local_expectation({where: G}, plaquette_envs=pe, normalized=True, **opts))
+                ref = complex(qu.expec(qu.ikron(G, [2] * 9, [sites.index(where)]), k) / np.vdot(k, k))
+                if abs(got - ref) > 1e-8 * max(1.0, abs(ref)):
+                    ctx.violation("store:2d:plaquette_envs:value", f"compute_local_expectation with a shared plaquette store, call #{call}: "
+                                  f"{got} != {ref}", {"desc": desc, "where": where, "call": call})
+                    break
+                if not check_plaq(pe, f"after expectation {call}"):
+                    break
+        except Exception as e:
+            import traceback
+
+            ctx.violation("store:2d:raised", f"shared 2D store sequence raised {e!r}"[:200],
+                          {"desc": desc, "traceback": traceback.format_exc()[-1000:]})
+
+
+# ------------------------------------------------------------------------------
 # stage 3b: the public entry points themselves (oracle)
 
 
@@ -1591,6 +1928,12 @@ def run(ctx):
         "untruncating; (environment | excluded part) vs whole; internal bonds of stored environments vs max_bond",
     ]
     ctx.assumptions += [
+        "mps / full-bond boundary modes never compress the bond that closes a periodic direction running along the "
+        "boundary (not supported by those modes): they are drawn on periodic lattices only contracted ALONG the periodic "
+        "direction (the documented default sequence); all other modes are also drawn with the boundary along it",
+        "global Schmidt-rank certificates are used only for the 1D compressors that truncate in a canonical form of the "
+        "whole chain (dm, direct, sdc, local-late with gauge distance 3 on chains of <= 5 sites); zip-up style, projector "
+        "and local-early compressors are certified only when max_bond covers everything crossing the cut",
         "hand-over points: exit of contract_boundary_from / compress_plane / coarse_grain_hotrg, the per-step callbacks of "
         "contract_compressed (callback_pre_contract when compress_late else callback), and the scheme's return",
         "max_bond=None is only drawn for modes that accept an unbounded cap (mps compress_late, 1D compressors, "
@@ -1607,6 +1950,7 @@ def run(ctx):
         ctx.stage(stage_exact_integer)
         ctx.stage(stage_coq)
         ctx.stage(stage_env_oracle)
+        ctx.stage(stage_shared_stores)
         ctx.stage(stage_api)
         ctx.stage(stage_contract_validation)
     finally:
